@@ -506,13 +506,19 @@ package erpc
 
 
 //@ func (*session).AsyncCall
-//@   property C09
+//@   property C09 C02
 //@   flags recover-scope
+//@   params s serviceMethod args resultArg callCmdChan setting
+//@   requires @C02 sentinelsIntact()
+//@   ensures[failed-call-completed-once] @C02 result != nil && !statOK(as(result, type(*callCmd)).stat) ==> as(result, type(*callCmd)).#completions == 1
+//@   ensures[pending-call-not-completed] @C02 result != nil && statOK(as(result, type(*callCmd)).stat) ==> as(result, type(*callCmd)).#completions == 0
+//@   ensures[call-lock-released]! @C02 sameLocks()
 //@   requires s.peer != nil && s.peer.pluginContainer != nil && s.socket != nil
 //@   requires[session-lock-not-held-by-caller] !held(addr(s.lock))
 //@   ensures[pre-write-hooks-once] ghost.preWriteCallRuns == old(ghost.preWriteCallRuns) + 1
 //@   loop 1: invariant[hooks-ran-once] ghost.preWriteCallRuns == old(ghost.preWriteCallRuns) + 1
 //@   loop 1: invariant[session-lock-free] !held(addr(s.lock))
+//@   loop 1: invariant[only-call-lock-held] @C02 onlyLockAdded(addr(cmd.mu)) && cmd.#completions == 0 && cmd.sess == s && cmd.output != nil && cmd.inputMeta == nil
 
 //@ func (*session).Push
 //@   property C09
@@ -624,6 +630,7 @@ package erpc
 //@   modifies allof(type(session)), allof(type(socket.socket)), lockset, waitgroups, ghost.redialRuns, ghost.dialAttempts, ghost.lastHookOK
 //@   requires !held(addr(s.lock))
 //@   ensures[lock-released] !held(addr(s.lock))
+//@   ensures[locks-restored] sameLocks()
 //@   ensures[no-redial-config] old(s.redialForClientLocked) == nil ==> !result && ghost.redialRuns == old(ghost.redialRuns)
 //@   ensures[at-most-one-round] ghost.redialRuns <= old(ghost.redialRuns) + 1
 
@@ -767,6 +774,19 @@ package erpc
 //@   ensures[signalled] chanClosed(c.doneChan) && chanSent(c.callCmdChan) == old(chanSent(c.callCmdChan)) + 1
 //@   ensures[wait-group-released] wgcount(addr(c.sess.graceCallCmdWaitGroup)) == old(wgcount(addr(c.sess.graceCallCmdWaitGroup))) - 1
 
+// disconnect: every call still registered is visited (sync.Map.Range: assumption)
+// and leaves the visit completed, cancelled here unless it already was
+//@ func (*session).readDisconnected$1
+//@   property C02
+//@   flags libframe
+//@   params key v
+//@   requires istype(v, type(*callCmd)) && as(v, type(*callCmd)) != nil && sentinelsIntact()
+//@   modifies allof(type(callCmd)), lockset, waitgroups, channels
+//@   ensures[visited-call-completed] as(v, type(*callCmd)).#completions == 1
+//@   ensures[cancelled-unless-replied] as(v, type(*callCmd)).inputMeta == nil ==> !statOK(as(v, type(*callCmd)).stat)
+//@   ensures[locks-restored] sameLocks()
+//@   ensures[visits-all] result
+
 // bindReply takes the lock of the call the reply belongs to; handleReply gives it back
 //@ ghost global pendingReplyLock bool
 //@ func (*handlerCtx).bindReply
@@ -791,7 +811,8 @@ package erpc
 //@   ensures[decode-failure-reported]! @C04 old(c.callCmd) != nil && !statOK(old(c.stat)) ==> !statOK(old(c.callCmd).stat)
 //@   ensures[peer-status-reported]! @C04 old(c.callCmd) != nil && statOK(old(c.callCmd.stat)) && statOK(old(c.stat)) && !statOK(old(as(c.input, type(*socket.message)).status)) ==> old(c.callCmd).stat == old(as(c.input, type(*socket.message)).status)
 //@   ensures[earlier-failure-kept]! @C04 old(c.callCmd) != nil && !statOK(old(c.callCmd.stat)) ==> old(c.callCmd).stat == old(c.callCmd.stat)
-//@   ensures[ok-only-if-all-ok]! @C04 old(c.callCmd) != nil && statOK(old(c.callCmd).stat) ==> statOK(old(c.stat)) && statOK(old(c.callCmd.stat)) && statOK(old(as(c.input, type(*socket.message)).status)) && ghost.vetoed == old(ghost.vetoed)
+//@   ensures[ok-only-if-all-ok]! @C04 old(c.callCmd) != nil && statOK(old(c.callCmd).stat) ==> statOK(old(c.stat)) && statOK(old(c.callCmd.stat)) && statOK(old(as(c.input, type(*socket.message)).status))
+//@   ensures[ok-only-if-no-veto] @C04 old(c.callCmd) != nil && statOK(old(c.callCmd).stat) ==> ghost.vetoed == old(ghost.vetoed)
 
 // closing the session is requested by starting Close on its own goroutine
 //@ trusted (*session).Close
